@@ -453,11 +453,10 @@ theorem toBits_determined {x : LinComb} {bits : Option Nat} {bs : List LinComb} 
   intro i hi
   rw [hbit i hi, hbit' i hi]
 
-/-- **`assert_positive`**: the model (as the Python code) decomposes with the GLOBAL bit length,
-whatever `bits` says -/
+/-- **`assert_positive(bits)`**: the width enforced is the requested one -/
 theorem assertPositive_sound {x : LinComb} {bits : Option Nat} {u : Unit} (hp : s.p = p)
     (hg : s.guard = none) (hx : x.lc.WF) (h : assertPositive x bits s = .ok (u, s'))
-    (h1 : w .one = 1) (hw : NewSat s s' w) : InRange p s.bitlength (ev p w x.lc) := by
+    (h1 : w .one = 1) (hw : NewSat s s' w) : InRange p (bits.getD s.bitlength) (ev p w x.lc) := by
   obtain ⟨vs, hl, rfl⟩ := assertPositive_ok hg h
   rw [NewSat_ext, hp] at hw
   obtain ⟨S, hS, hSe, -⟩ := toBitsCons_sound hx h1 hw
@@ -700,21 +699,20 @@ theorem assertNe_sound (hp : s.p = p) (hg : s.guard = none) (hone : s.one = oneS
   simp only [oneSafe, ev_one h1, ev_wire] at this
   intro h0; rw [h0, sub_self, zero_mul] at this; exact zero_ne_one this
 
-/-- `assert_range(lo, hi)`: NB the second check is `hi - x ≥ 0`, so `x = hi` is accepted
-in-circuit (the model mirrors the code) -/
+/-- `assert_range(lo, hi)`: `x - lo ≥ 0` and `hi - x - 1 ≥ 0`, the half-open range `[lo, hi)` -/
 theorem assertRange_sound {x lo hi : LinComb} (hp : s.p = p) (hg : s.guard = none)
     (hx : x.lc.WF) (hlo : lo.lc.WF) (hhi : hi.lc.WF)
     (h : assertRange x lo hi s = .ok (u, s')) (h1 : w .one = 1) (hw : NewSat s s' w) :
     InRange p s.bitlength (ev p w x.lc - ev p w lo.lc) ∧
-    InRange p s.bitlength (ev p w hi.lc - ev p w x.lc) := by
+    InRange p s.bitlength (ev p w hi.lc - ev p w x.lc - 1) := by
   obtain ⟨vs1, vs2, hl1, hl2, rfl⟩ := assertRange_ok hg h
   rw [NewSat_ext, hp] at hw
   obtain ⟨S, hS, hSe, -⟩ := toBitsCons_sound (LinComb.WF_sub hx hlo) h1
     (fun c hc => hw c (List.mem_append_left _ hc))
-  obtain ⟨T, hT, hTe, -⟩ := toBitsCons_sound (LinComb.WF_sub hhi hx) h1
+  obtain ⟨T, hT, hTe, -⟩ := toBitsCons_sound (LinComb.WF_subI 1 (LinComb.WF_sub hhi hx)) h1
     (fun c hc => hw c (List.mem_append_right _ hc))
   rw [ev_sub hx hlo] at hSe
-  rw [ev_sub hhi hx] at hTe
+  rw [ev_subI h1 1 (LinComb.WF_sub hhi hx), ev_sub hhi hx, Int.cast_one] at hTe
   exact ⟨⟨S, hl1 ▸ hS, hSe⟩, ⟨T, hl2 ▸ hT, hTe⟩⟩
 
 end asserts
